@@ -49,4 +49,7 @@ theorem crc_check_value : crc32c [0x31,0x32,0x33,0x34,0x35,0x36,0x37,0x38,0x39] 
 /-- LevelDB's `crc32c::Mask` on a known value: Mask(0) = kMaskDelta -/
 theorem mask_zero : Spec.Format.mask 0 = 0xa282ead8 := by decide
 
+/-- the reader treats probe-count bytes above the writer's maximum as "may match" (model: literal 30) -/
+theorem bloom_reader_kmax : Consts.bloomReaderKMax = 30 ∧ Consts.bloomReaderKMax = Consts.bloomKMax := by decide
+
 end Sst.ConstsTie
